@@ -278,6 +278,9 @@ func checkC13(c *Ctx, r *Report) {
 	// retry loop, and that a recorded in-session failure reaches the caller (shared with C10)
 	checkClosureExits(c, r)
 
+	// (h) no blocking call reports success over a failure it was told about
+	checkErrorsExamined(c, r, "errors-examined", "every context-taking function of the library returns success only on paths where every error a module call returned was compared with nil: a failed exchange is never passed over", 10, c.ctxFuncs())
+
 	// (a) transport.Send
 	send := c.transportSend()
 	r.Rule("socket-deadlines", "each blocking socket call in transport.Send is preceded on every path by the matching deadline call with the ctx parameter's deadline, or by the no-deadline arm of ctx.Deadline()", 2)
